@@ -33,7 +33,7 @@ HAND = [
 def gen(tier, seed):
     meta = {}
     cases = copy.deepcopy(HAND)
-    plan = [("Cont1.cfg", 350, None), ("Mixed1.cfg", 350, None), ("Cont2.cfg", 350, None), ("Mixed2.cfg", 450, None),
+    plan = [("Cont1.cfg", 350, None), ("Mixed1.cfg", 350, None), ("Cont2.cfg", 350, None), ("Mixed2.cfg", 450, None), ("Offset1.cfg", 200, None), ("Offset2.cfg", 300, None),
             ("SimMixed3.cfg", 250 if tier == "quick" else 6000, (3 if tier == "quick" else 40, 9)),
             ("SimCont3.cfg", 150 if tier == "quick" else 3000, (3 if tier == "quick" else 30, 9))]
     if tier == "thorough":
